@@ -1,6 +1,6 @@
 SPECIFICATION Spec
 CONSTANTS
-  Tags <- BoundaryTags
+  Tags <- FiveTags
   KeyLen = 2
   ValLen = 1
   HiBytes <- HiAll
